@@ -199,195 +199,724 @@ func loadsOf(fn *ssa.Function, sv sliceVar) []ssa.Instruction {
 	return out
 }
 
+// sortCalls: library calls that sort their first argument in place.
 var sortCalls = map[string]bool{"sort.Slice": true, "sort.SliceStable": true, "sort.Strings": true, "sort.Sort": true, "sort.Stable": true,
 	"slices.Sort": true, "slices.SortFunc": true, "slices.SortStableFunc": true}
 
-// orderRule: a slice filled while ranging over a map (iteration order is random) must be sorted ascending before it is
-// used, and the sort must compare a string field byte-wise in ascending order.
+// orderRule (ORDER): a slice whose element order comes from a map (iteration order is random) must be sorted
+// ascending, byte-wise on a string key, before it is used. Returns the number of such slices found in fn (the callers'
+// vacuity guards count them). A slice "filled from a map" is
+//
+//   - a slice variable appended to inside a `for … range m` loop over a map and living across that loop: a local cell
+//     (a variable or a field of a local struct that a closure captures or whose address is taken) or an SSA register
+//     (the loop-carried phi of a plain local, which is what a variable becomes once no `sort.Slice` closure captures it);
+//   - a cell of this function appended to by the body of `for k := range maps.Keys(m)` (maps.Values, maps.All), which
+//     go/ssa compiles to a call of the sequence with the body as a closure;
+//   - the result of slices.Collect(maps.Keys(m)) / slices.Collect(maps.Values(m));
+//   - the result of slices.Sorted / slices.SortedFunc / slices.SortedStableFunc over maps.Keys(m) / maps.Values(m), which
+//     is sorted by construction: by `<` on its elements (which must be strings), resp. by the comparison function,
+//     which is held to the same standard as the one of slices.SortFunc.
+//
+// Accepted sorts: sort.Strings, slices.Sort on strings, sort.Slice/SliceStable with a less function equivalent to
+// `a[i].F < a[j].F` (also `cmp.Less(…)`, `cmp.Compare(…) < 0`, `strings.Compare(…) < 0`), slices.SortFunc/SortStableFunc
+// with a comparison function equivalent to `cmp.Compare(a.F, b.F)` (also strings.Compare, or one of the two passed
+// directly). Swapped operands, `>`, a negated comparison, a different field on the two sides and a non-string key are
+// reported; so is any other sorting API (its order cannot be checked).
+//
+// Every read of the slice that can execute after it was filled must be dominated by an accepted sort; len and cap do not
+// depend on the order and are not reads. A read that only walks the still unsorted slice in another loop
+// (`for _, k := range keys`) hands the random order on: the slices filled in that loop are then held to the same rule and
+// the walk itself is not a violation (a walk that fills nothing stays a plain read).
+//
+// Once a slice is known to be sorted, three ways of undoing the order are refuted (reported only when positively
+// identified; any other later reordering is not looked for): slices.Reverse on it, ranging over slices.Backward of it,
+// and an index walk from the back inside a loop that appends.
 func orderRule(c *Ctx, rule string, fn *ssa.Function) int {
-	n := 0
-	loops := loopsOf(fn)
+	o := &orderCtx{c: c, rule: rule, fn: fn, loops: loopsOf(fn), filled: map[*loopInfo]int{}}
 	allInstrs(fn, func(i ssa.Instruction) {
-		rg, ok := i.(*ssa.Range)
+		switch x := i.(type) {
+		case *ssa.Range:
+			if _, isMap := x.X.Type().Underlying().(*types.Map); !isMap {
+				return
+			}
+			// the loop of this range: the innermost loop containing its Next
+			for _, r := range referrers(x) {
+				if nx, ok := r.(*ssa.Next); ok {
+					o.unorderedLoop(o.innermost(nx.Block()))
+				}
+			}
+		case *ssa.Call:
+			o.keySlice(x)
+			o.rangeFunc(x)
+		}
+	})
+	return o.n
+}
+
+type orderCtx struct {
+	c      *Ctx
+	rule   string
+	fn     *ssa.Function
+	loops  []*loopInfo
+	filled map[*loopInfo]int // loops walking something unordered that have been looked at: number of slices filled in them
+	n      int
+}
+
+// filledSlice: one slice whose element order comes from a map.
+type filledSlice struct {
+	key      string
+	at       ssa.Instruction          // an append that fills it, or the call that produces it
+	loop     *loopInfo                // the loop that fills it (nil: produced by a call, or filled by a range-over-func body)
+	reach    bool                     // only reads that can execute after `at` count (false: every read follows `at` anyway)
+	reads    []sliceRead              // the values through which it is read outside that loop
+	internal map[ssa.Instruction]bool // the variable's own plumbing (phis, the filling appends, stores into its cell): not reads
+}
+
+type sliceRead struct {
+	val ssa.Value
+	pos ssa.Instruction // the load, when the variable is a cell; nil for an SSA register, which is read where it is used
+}
+
+func (o *orderCtx) innermost(b *ssa.BasicBlock) *loopInfo {
+	var loop *loopInfo
+	for _, l := range o.loops {
+		if l.blocks[b] && (loop == nil || len(l.blocks) < len(loop.blocks)) {
+			loop = l
+		}
+	}
+	return loop
+}
+
+func appendCallOf(i ssa.Instruction) (*ssa.Call, bool) {
+	call, ok := i.(*ssa.Call)
+	if !ok {
+		return nil, false
+	}
+	if bi, ok := call.Call.Value.(*ssa.Builtin); !ok || bi.Name() != "append" || len(call.Call.Args) == 0 {
+		return nil, false
+	}
+	return call, true
+}
+
+// unorderedLoop: loop walks something in random order (a map, or a slice of map keys that has not been sorted); every
+// slice variable that receives appends inside it and lives across it is a filled slice.
+func (o *orderCtx) unorderedLoop(loop *loopInfo) int {
+	if loop == nil {
+		return 0
+	}
+	if k, done := o.filled[loop]; done {
+		return k
+	}
+	o.filled[loop] = 0
+	fn := o.fn
+	// cells appended to inside the loop
+	vars := map[sliceVar]ssa.Instruction{}
+	var order []sliceVar
+	for _, b := range fn.Blocks {
+		if !loop.blocks[b] {
+			continue
+		}
+		for _, ins := range b.Instrs {
+			st, ok := ins.(*ssa.Store)
+			if !ok {
+				continue
+			}
+			if _, ok := appendCallOf(instrOf(st.Val)); !ok {
+				continue
+			}
+			if sv, ok := sliceVarOf(st.Addr); ok {
+				// only variables that live across the whole loop (declared outside it)
+				if al, ok := sv.alloc.(*ssa.Alloc); ok && !loop.blocks[al.Block()] {
+					if _, dup := vars[sv]; !dup {
+						order = append(order, sv)
+					}
+					vars[sv] = ins
+				}
+			}
+		}
+	}
+	for _, sv := range order {
+		fs := &filledSlice{key: o.cellKey(sv), at: vars[sv], loop: loop, reach: true, reads: o.cellReads(sv, loop)}
+		o.n++
+		o.filled[loop]++
+		o.check(fs, false, "")
+	}
+	// registers: loop-carried phis of slice type that are appended to inside the loop
+	for _, ins := range loop.header.Instrs {
+		phi, ok := ins.(*ssa.Phi)
+		if !ok {
+			break
+		}
+		if _, isSlice := phi.Type().Underlying().(*types.Slice); !isSlice {
+			continue
+		}
+		vals, internal, app := o.versions(phi, loop)
+		if app == nil {
+			continue
+		}
+		carried := false
+		for k, e := range phi.Edges {
+			if loop.blocks[phi.Block().Preds[k]] && e != ssa.Value(phi) {
+				for _, v := range vals {
+					carried = carried || v == e
+				}
+			}
+		}
+		if !carried {
+			continue // appended to, but the result does not become the variable's next value
+		}
+		name := phi.Comment
+		if name == "" {
+			name = phi.Name()
+		}
+		fs := &filledSlice{key: safeFname(fn) + ": " + name, at: app, loop: loop, reach: true, internal: internal}
+		for _, v := range vals {
+			fs.reads = append(fs.reads, sliceRead{val: v})
+		}
+		o.n++
+		o.filled[loop]++
+		o.check(fs, false, "")
+	}
+	return o.filled[loop]
+}
+
+func (o *orderCtx) cellKey(sv sliceVar) string {
+	key := safeFname(o.fn) + ": " + sv.alloc.Name()
+	if al, ok := sv.alloc.(*ssa.Alloc); ok && al.Comment != "" {
+		key = safeFname(o.fn) + ": " + al.Comment
+	}
+	if sv.field >= 0 {
+		key += "." + fieldOf(sv.alloc.Type(), sv.field).Name()
+	}
+	return key
+}
+
+// cellReads: the loads of a slice cell in this function outside the loop that fills it. Loads inside closures (the less
+// function) are part of the sort, which is checked on its own.
+func (o *orderCtx) cellReads(sv sliceVar, loop *loopInfo) []sliceRead {
+	var out []sliceRead
+	for _, ld := range loadsOf(o.fn, sv) {
+		if ld.Parent() != o.fn || (loop != nil && loop.blocks[ld.Block()]) {
+			continue
+		}
+		out = append(out, sliceRead{val: ld.(ssa.Value), pos: ld})
+	}
+	return out
+}
+
+// rangeFunc: `for k := range maps.Keys(m)` (also maps.Values, maps.All) is the call seq(yield) with the loop body as the
+// yield closure: the cells of this function that the body appends to are filled in map order.
+func (o *orderCtx) rangeFunc(call *ssa.Call) {
+	if m, _ := mapSeq(call.Call.Value); m == nil || len(call.Call.Args) != 1 {
+		return
+	}
+	mc, ok := call.Call.Args[0].(*ssa.MakeClosure)
+	if !ok {
+		return
+	}
+	body, _ := mc.Fn.(*ssa.Function)
+	if body == nil {
+		return
+	}
+	seen := map[sliceVar]bool{}
+	allInstrs(body, func(ins ssa.Instruction) {
+		st, ok := ins.(*ssa.Store)
 		if !ok {
 			return
 		}
-		if _, isMap := rg.X.Type().Underlying().(*types.Map); !isMap {
+		if _, ok := appendCallOf(instrOf(st.Val)); !ok {
 			return
 		}
-		// the loop of this range: the innermost loop containing its Next
-		var next *ssa.Next
-		for _, r := range referrers(rg) {
-			if nx, ok := r.(*ssa.Next); ok {
-				next = nx
-			}
-		}
-		if next == nil {
+		sv, ok := sliceVarOf(st.Addr)
+		if !ok || seen[sv] {
 			return
 		}
-		var loop *loopInfo
-		for _, l := range loops {
-			if l.blocks[next.Block()] && (loop == nil || len(l.blocks) < len(loop.blocks)) {
-				loop = l
-			}
-		}
-		if loop == nil {
+		if al, ok := sv.alloc.(*ssa.Alloc); !ok || al.Parent() != o.fn {
 			return
 		}
-		// slices appended to inside the loop
-		vars := map[sliceVar]ssa.Instruction{}
-		for b := range loop.blocks {
-			for _, ins := range b.Instrs {
-				st, ok := ins.(*ssa.Store)
-				if !ok {
-					continue
-				}
-				call, ok := st.Val.(*ssa.Call)
-				if !ok {
-					continue
-				}
-				if bi, ok := call.Call.Value.(*ssa.Builtin); !ok || bi.Name() != "append" {
-					continue
-				}
-				if sv, ok := sliceVarOf(st.Addr); ok {
-					// only variables that live across the whole map loop (declared outside it)
-					if al, ok := sv.alloc.(*ssa.Alloc); ok && !loop.blocks[al.Block()] {
-						vars[sv] = ins
-					}
-				}
-			}
-		}
-		for sv, at := range vars {
-			n++
-			key := safeFname(fn) + ": " + sv.alloc.Name()
-			if al, ok := sv.alloc.(*ssa.Alloc); ok && al.Comment != "" {
-				key = safeFname(fn) + ": " + al.Comment
-			}
-			if sv.field >= 0 {
-				key += "." + fieldOf(sv.alloc.Type(), sv.field).Name()
-			}
-			// uses after the loop
-			var sorts []*ssa.Call
-			var others []ssa.Instruction
-			for _, ld := range loadsOf(fn, sv) {
-				if ld.Parent() == fn && loop.blocks[ld.Block()] {
-					continue
-				}
-				if ld.Parent() != fn {
-					continue // inside closures (the less function): checked below
-				}
-				isSort := false
-				for _, u := range usesOf(ld.(ssa.Value)) {
-					uu := u
-					if mi, ok := u.(*ssa.MakeInterface); ok {
-						for _, u2 := range usesOf(mi) {
-							uu = u2
-						}
-					}
-					if call, ok := uu.(*ssa.Call); ok && sortCalls[calleeName(&call.Call)] {
-						sorts = append(sorts, call)
-						isSort = true
-					}
-				}
-				if !isSort {
-					others = append(others, ld)
-				}
-			}
-			// only loads that can execute after the loop matter
-			var after []ssa.Instruction
-			for _, o := range others {
-				if c.fc.reachableFrom(fn, at, o) {
-					after = append(after, o)
-				}
-			}
-			if len(after) == 0 && len(sorts) == 0 {
-				c.r.ok(rule, key, "filled from a map but not used afterwards", c.w.ipos(at))
-				continue
-			}
-			if len(sorts) == 0 {
-				c.r.bad(rule, key, "a slice filled while ranging over a map is used without being sorted: its order changes from run to run", []string{c.w.ipos(at)})
-				continue
-			}
-			okDom := true
-			for _, o := range after {
-				dominated := false
-				for _, sc := range sorts {
-					if sc.Block() == o.Block() {
-						if pointOf(sc).i < pointOf(o).i {
-							dominated = true
-						}
-					} else if sc.Block().Dominates(o.Block()) {
-						dominated = true
-					}
-				}
-				if !dominated {
-					okDom = false
-				}
-			}
-			if !okDom {
-				c.r.bad(rule, key, "a slice filled while ranging over a map is used on a path that has not sorted it", []string{c.w.ipos(at)})
-				continue
-			}
-			// the comparison
-			bad := ""
-			for _, sc := range sorts {
-				name := calleeName(&sc.Call)
-				if name == "sort.Strings" || name == "slices.Sort" {
-					continue
-				}
-				if name != "sort.Slice" && name != "sort.SliceStable" {
-					bad = "sorted with " + shortName(name) + ", whose order this rule cannot check"
-					continue
-				}
-				var less *ssa.Function
-				switch v := sc.Call.Args[1].(type) {
-				case *ssa.MakeClosure:
-					less, _ = v.Fn.(*ssa.Function)
-				case *ssa.Function:
-					less = v
-				}
-				if less == nil || len(less.Params) != 2 {
-					bad = "less function not resolvable"
-					continue
-				}
-				nRet := 0
-				allInstrs(less, func(j ssa.Instruction) {
-					ret, ok := j.(*ssa.Return)
-					if !ok || len(ret.Results) != 1 {
-						return
-					}
-					nRet++
-					b, ok := ret.Results[0].(*ssa.BinOp)
-					if !ok || b.Op != token.LSS {
-						if ok && b.Op == token.GTR {
-							bad = "descending comparison"
-						} else {
-							bad = "less function is not a plain `a[i].F < a[j].F`"
-						}
-						return
-					}
-					xi, xf := elemIndexField(b.X)
-					yi, yf := elemIndexField(b.Y)
-					if xi == nil || yi == nil || xf != yf {
-						bad = "less function does not compare the same field of two elements"
-						return
-					}
-					if xi != ssa.Value(less.Params[0]) || yi != ssa.Value(less.Params[1]) {
-						bad = "descending comparison (element j compared before element i)"
-						return
-					}
-					if bt, ok := b.X.Type().Underlying().(*types.Basic); !ok || bt.Info()&types.IsString == 0 {
-						bad = "comparison is not on a string"
-					}
-				})
-				if nRet != 1 && bad == "" {
-					bad = "less function with several returns"
-				}
-			}
-			c.r.check(bad == "", rule, key, "sorted ascending (byte-wise on a string) before any use", "a slice filled from a map is not sorted ascending by its string key: "+bad, c.w.ipos(sorts[0]))
-		}
+		seen[sv] = true
+		o.n++
+		o.check(&filledSlice{key: o.cellKey(sv), at: call, reads: o.cellReads(sv, nil), reach: true}, false, "")
 	})
-	return n
+}
+
+// versions: the SSA values that stand for one slice variable: the seed, the phis that merge versions, the appends to a
+// version inside the filling loop and — for the result of a call (loop == nil) that is stored into a local cell (a
+// variable captured by a closure, a field of a local struct) — the loads of that cell in this function.
+func (o *orderCtx) versions(seed ssa.Value, loop *loopInfo) (vals []ssa.Value, internal map[ssa.Instruction]bool, app ssa.Instruction) {
+	internal = map[ssa.Instruction]bool{}
+	seen := map[ssa.Value]bool{}
+	work := []ssa.Value{seed}
+	for len(work) > 0 {
+		v := work[0]
+		work = work[1:]
+		if seen[v] {
+			continue
+		}
+		seen[v] = true
+		vals = append(vals, v)
+		for _, u := range usesOf(v) {
+			switch x := u.(type) {
+			case *ssa.Phi:
+				internal[x] = true
+				work = append(work, x)
+			case *ssa.Call:
+				if call, ok := appendCallOf(x); ok && loop != nil && loop.blocks[x.Block()] && call.Call.Args[0] == v {
+					internal[x] = true
+					if app == nil {
+						app = x
+					}
+					work = append(work, x)
+				}
+			case *ssa.Store:
+				if loop != nil || x.Addr == v {
+					continue
+				}
+				if sv, ok := sliceVarOf(x.Addr); ok {
+					if _, isAlloc := sv.alloc.(*ssa.Alloc); isAlloc {
+						internal[x] = true
+						for _, ld := range loadsOf(o.fn, sv) {
+							if ld.Parent() == o.fn {
+								work = append(work, ld.(ssa.Value))
+							}
+						}
+					}
+				}
+			}
+		}
+	}
+	return
+}
+
+// mapSeq: v is maps.Keys(m), maps.Values(m) or maps.All(m) of a map m (possibly held in a variable assigned once).
+func mapSeq(v ssa.Value) (m ssa.Value, name string) {
+	call, ok := peel(v).(*ssa.Call)
+	if !ok || len(call.Call.Args) != 1 {
+		return nil, ""
+	}
+	name = calleeName(&call.Call)
+	if name != "maps.Keys" && name != "maps.Values" && name != "maps.All" {
+		return nil, ""
+	}
+	if _, isMap := call.Call.Args[0].Type().Underlying().(*types.Map); !isMap {
+		return nil, ""
+	}
+	return call.Call.Args[0], name
+}
+
+// keySlice: the slice of a map's keys (values) made by the slices/maps packages instead of a hand-written loop.
+func (o *orderCtx) keySlice(call *ssa.Call) {
+	name := calleeName(&call.Call)
+	switch name {
+	case "slices.Collect", "slices.Sorted", "slices.SortedFunc", "slices.SortedStableFunc":
+	default:
+		return
+	}
+	if len(call.Call.Args) == 0 {
+		return
+	}
+	m, seq := mapSeq(call.Call.Args[0])
+	if m == nil {
+		return
+	}
+	vals, internal, _ := o.versions(call, nil)
+	fs := &filledSlice{key: safeFname(o.fn) + ": " + name + "(" + seq + "(" + describeValue(m) + "))", at: call, internal: internal}
+	for _, v := range vals {
+		fs.reads = append(fs.reads, sliceRead{val: v})
+	}
+	o.n++
+	switch {
+	case name == "slices.Collect":
+		o.check(fs, false, "")
+	case name == "slices.Sorted":
+		o.check(fs, true, notStringKey(elemType(call.Type())))
+	case len(call.Call.Args) == 2:
+		o.check(fs, true, keyFuncDefect(call.Call.Args[1], true))
+	}
+}
+
+func notStringKey(t types.Type) string {
+	if t != nil {
+		if bt, ok := t.Underlying().(*types.Basic); ok && bt.Info()&types.IsString != 0 {
+			return ""
+		}
+	}
+	return "comparison is not on a string"
+}
+
+// check decides one filled slice. sorted: it is sorted by construction (defect: what is wrong with that order).
+func (o *orderCtx) check(fs *filledSlice, sorted bool, defect string) {
+	c, fn, rule, key := o.c, o.fn, o.rule, fs.key
+	site := c.w.ipos(fs.at)
+	const notAscending = "a slice filled from a map is not sorted ascending by its string key: "
+	if defect != "" {
+		c.r.bad(rule, key, notAscending+defect, []string{site})
+		return
+	}
+	type use struct {
+		pos   ssa.Instruction // program point of the read
+		val   ssa.Value
+		users []ssa.Instruction
+	}
+	var sorts []*ssa.Call
+	var others []use
+	for _, r := range fs.reads {
+		isSort := false
+		var plain []ssa.Instruction
+		for _, u := range usesOf(r.val) {
+			if fs.internal[u] {
+				continue
+			}
+			if r.pos == nil && fs.loop != nil && u.Parent() == fn && fs.loop.blocks[u.Block()] {
+				continue // inside the filling loop
+			}
+			uu := u
+			if mi, ok := u.(*ssa.MakeInterface); ok {
+				for _, u2 := range usesOf(mi) {
+					uu = u2
+				}
+			}
+			if call, ok := uu.(*ssa.Call); ok && sortCalls[calleeName(&call.Call)] {
+				sorts = append(sorts, call)
+				isSort = true
+				continue
+			}
+			if isCallTo(u, "builtin.len", "builtin.cap") {
+				continue // does not depend on the order
+			}
+			plain = append(plain, u)
+		}
+		switch {
+		case r.pos == nil:
+			for _, u := range plain {
+				others = append(others, use{pos: u, val: r.val, users: []ssa.Instruction{u}})
+			}
+		case !isSort && len(plain) > 0:
+			others = append(others, use{pos: r.pos, val: r.val, users: plain})
+		}
+	}
+	// only reads that can execute after the filling matter
+	var after []use
+	for _, ot := range others {
+		if !fs.reach || c.fc.reachableFrom(fn, fs.at, ot.pos) {
+			after = append(after, ot)
+		}
+	}
+	sortedAt := func(at ssa.Instruction) bool {
+		for _, sc := range sorts {
+			if sc.Block() == at.Block() {
+				if pointOf(sc).i < pointOf(at).i {
+					return true
+				}
+			} else if sc.Block().Dominates(at.Block()) {
+				return true
+			}
+		}
+		return false
+	}
+	okmsg := "sorted ascending (byte-wise on a string) by construction"
+	if !sorted {
+		okmsg = "sorted ascending (byte-wise on a string) before any use"
+		walked := false
+		var rest []use
+		for _, ot := range after {
+			if !sortedAt(ot.pos) {
+				// the random order is handed on to what that loop fills; a walk that fills nothing stays a plain use
+				if l := o.walkOf(fs, ot.val, ot.users); l != nil && o.unorderedLoop(l) > 0 {
+					walked = true
+					continue
+				}
+			}
+			rest = append(rest, ot)
+		}
+		after = rest
+		if len(after) == 0 && len(sorts) == 0 {
+			msg := "filled from a map but not used afterwards"
+			if walked {
+				msg = "filled from a map and only walked afterwards; the slices filled during that walk are held to this rule instead"
+			}
+			c.r.ok(rule, key, msg, site)
+			return
+		}
+		if len(sorts) == 0 {
+			c.r.bad(rule, key, "a slice filled while ranging over a map is used without being sorted: its order changes from run to run", []string{site})
+			return
+		}
+		for _, ot := range after {
+			if !sortedAt(ot.pos) {
+				c.r.bad(rule, key, "a slice filled while ranging over a map is used on a path that has not sorted it", []string{site})
+				return
+			}
+		}
+		// the comparison
+		bad := ""
+		for _, sc := range sorts {
+			if d := sortDefect(sc); d != "" {
+				bad = d
+			}
+		}
+		if bad != "" {
+			c.r.bad(rule, key, notAscending+bad, []string{c.w.ipos(sorts[0])})
+			return
+		}
+		site = c.w.ipos(sorts[0])
+	}
+	// the order must not be undone afterwards
+	for _, ot := range after {
+		isSorted := sorted
+		for _, sc := range sorts {
+			isSorted = isSorted || c.fc.reachableFrom(fn, sc, ot.pos)
+		}
+		if !isSorted {
+			continue
+		}
+		for _, u := range ot.users {
+			if why := o.undoes(u, ot.val); why != "" {
+				c.r.bad(rule, key, notAscending+why, []string{c.w.ipos(u)})
+				return
+			}
+		}
+	}
+	c.r.ok(rule, key, okmsg, site)
+}
+
+// inductionOf: idx is base+k for a phi at the header of a loop; step is the phi's change per iteration (0: not constant).
+func inductionOf(idx ssa.Value) (phi *ssa.Phi, step int64) {
+	b, _ := lin(idx)
+	phi, ok := b.(*ssa.Phi)
+	if !ok {
+		return nil, 0
+	}
+	for _, e := range phi.Edges {
+		if eb, eo := lin(e); eb == ssa.Value(phi) && eo != 0 {
+			if step != 0 && step != eo {
+				return phi, 0
+			}
+			step = eo
+		}
+	}
+	return phi, step
+}
+
+// walkOf: the users of one read of a slice do nothing but walk it front to back or back to front in a loop other than
+// the one that fills it (`for _, k := range s`, `for i := range s { … s[i] … }`): returns that loop.
+func (o *orderCtx) walkOf(fs *filledSlice, val ssa.Value, users []ssa.Instruction) *loopInfo {
+	var loop *loopInfo
+	for _, u := range users {
+		ia, ok := u.(*ssa.IndexAddr)
+		if !ok || ia.X != val {
+			return nil
+		}
+		phi, step := inductionOf(ia.Index)
+		if phi == nil || step == 0 {
+			return nil
+		}
+		var l *loopInfo
+		for _, cand := range o.loops {
+			if cand.header == phi.Block() {
+				l = cand
+			}
+		}
+		if l == nil || !l.blocks[ia.Block()] || l == fs.loop || (loop != nil && l != loop) {
+			return nil
+		}
+		if fs.loop != nil && l.blocks[fs.at.Block()] {
+			return nil // an enclosing loop of the filling loop
+		}
+		loop = l
+	}
+	return loop
+}
+
+// undoes: u, a use of the sorted slice val, positively reverses its order.
+func (o *orderCtx) undoes(u ssa.Instruction, val ssa.Value) string {
+	switch x := u.(type) {
+	case *ssa.Call:
+		if len(x.Call.Args) == 0 || x.Call.Args[0] != val {
+			return ""
+		}
+		switch calleeName(&x.Call) {
+		case "slices.Reverse":
+			return "it is reversed with slices.Reverse after it was sorted"
+		case "slices.Backward":
+			return "it is walked from the back (slices.Backward) after it was sorted"
+		}
+	case *ssa.IndexAddr:
+		if x.X != val {
+			return ""
+		}
+		if phi, step := inductionOf(x.Index); phi != nil && step < 0 {
+			if l := o.innermost(x.Block()); l != nil {
+				for b := range l.blocks {
+					for _, ins := range b.Instrs {
+						if _, ok := appendCallOf(ins); ok {
+							return "after it was sorted it is walked from the back by a loop that fills another slice"
+						}
+					}
+				}
+			}
+		}
+	}
+	return ""
+}
+
+// sortDefect: what is wrong with the order a sort call establishes ("": ascending, byte-wise, on a string key).
+func sortDefect(sc *ssa.Call) string {
+	name := calleeName(&sc.Call)
+	switch name {
+	case "sort.Strings":
+		return ""
+	case "slices.Sort":
+		return notStringKey(elemType(sc.Call.Args[0].Type()))
+	case "sort.Slice", "sort.SliceStable":
+		return keyFuncDefect(sc.Call.Args[1], false)
+	case "slices.SortFunc", "slices.SortStableFunc":
+		return keyFuncDefect(sc.Call.Args[1], true)
+	}
+	return "sorted with " + shortName(name) + ", whose order this rule cannot check"
+}
+
+// keyFuncDefect checks the function handed to a sort: a less function `func(i, j int) bool` over indices of the slice
+// (threeWay false) or a comparison function `func(a, b T) int` over its elements (threeWay true). It must have a single
+// return whose value is equivalent to `key(first) < key(second)`, resp. `cmp.Compare(key(first), key(second))`, where
+// key is the element itself or one and the same field of it, of string type.
+func keyFuncDefect(f ssa.Value, threeWay bool) string {
+	what := "less function"
+	if threeWay {
+		what = "comparison function"
+	}
+	var fn *ssa.Function
+	switch v := f.(type) {
+	case *ssa.MakeClosure:
+		fn, _ = v.Fn.(*ssa.Function)
+	case *ssa.Function:
+		fn = v
+	}
+	if fn == nil {
+		return what + " not resolvable"
+	}
+	if n := funcFullName(fn); threeWay && (n == "cmp.Compare" || n == "strings.Compare") {
+		// the library comparison itself, on the elements (no body is built for it: go by the signature)
+		return notStringKey(fn.Signature.Params().At(0).Type())
+	}
+	if len(fn.Params) != 2 || fn.Blocks == nil {
+		return what + " not resolvable"
+	}
+	nRet, bad := 0, ""
+	allInstrs(fn, func(j ssa.Instruction) {
+		ret, ok := j.(*ssa.Return)
+		if !ok || len(ret.Results) != 1 {
+			return
+		}
+		nRet++
+		var x, y ssa.Value
+		var why string
+		if threeWay {
+			x, y, why = comparePair(ret.Results[0])
+		} else {
+			x, y, why = lessPair(ret.Results[0])
+		}
+		if why != "" {
+			bad = why
+			return
+		}
+		xi, xf, okx := sortKeyOf(fn, x, threeWay)
+		yi, yf, oky := sortKeyOf(fn, y, threeWay)
+		if !okx || !oky || xf != yf || xi == yi {
+			bad = what + " does not compare the same field of two elements"
+			return
+		}
+		if xi != 0 {
+			bad = "descending comparison (the second element compared before the first)"
+			return
+		}
+		bad = notStringKey(x.Type())
+	})
+	if nRet != 1 && bad == "" {
+		bad = what + " with several returns"
+	}
+	return bad
+}
+
+func libCall(v ssa.Value, names ...string) (*ssa.Call, bool) {
+	call, ok := v.(*ssa.Call)
+	if !ok || !isCallTo(call, names...) {
+		return nil, false
+	}
+	return call, true
+}
+
+// comparePair: v, the int result of a comparison function, has the sign of compare(x, y).
+func comparePair(v ssa.Value) (x, y ssa.Value, why string) {
+	if call, ok := libCall(v, "cmp.Compare", "strings.Compare"); ok && len(call.Call.Args) == 2 {
+		return call.Call.Args[0], call.Call.Args[1], ""
+	}
+	if neg, ok := v.(*ssa.UnOp); ok && neg.Op == token.SUB {
+		x, y, why = comparePair(neg.X)
+		return y, x, why
+	}
+	return nil, nil, "comparison function is not a plain `cmp.Compare(a.F, b.F)`"
+}
+
+// lessPair: v, the bool result of a less function, is equivalent to x < y.
+func lessPair(v ssa.Value) (x, y ssa.Value, why string) {
+	const notPlain = "less function is not a plain `a[i].F < a[j].F`"
+	if call, ok := libCall(v, "cmp.Less"); ok && len(call.Call.Args) == 2 {
+		return call.Call.Args[0], call.Call.Args[1], ""
+	}
+	b, ok := v.(*ssa.BinOp)
+	if !ok || (b.Op != token.LSS && b.Op != token.GTR) {
+		return nil, nil, notPlain
+	}
+	x, y = b.X, b.Y
+	if k, isInt := constInt(y); isInt {
+		// cmp.Compare(p, q) < 0
+		if k != 0 {
+			return nil, nil, notPlain
+		}
+		if x, y, why = comparePair(x); why != "" {
+			return nil, nil, notPlain
+		}
+	}
+	if b.Op == token.GTR {
+		x, y = y, x
+	}
+	return x, y, ""
+}
+
+// sortKeyOf: v is the sort key of the which-th (0/1) parameter of the function handed to a sort: `s[p].F` / `s[p]` for
+// an index parameter p, `p.F` / `p` for an element parameter p (field nil: the element itself).
+func sortKeyOf(fn *ssa.Function, v ssa.Value, elemParams bool) (which int, field *types.Var, ok bool) {
+	var p ssa.Value
+	if !elemParams {
+		p, field = elemIndexField(v)
+	} else {
+		switch x := v.(type) {
+		case *ssa.UnOp:
+			if x.Op != token.MUL {
+				return 0, nil, false
+			}
+			if fa, isField := x.X.(*ssa.FieldAddr); isField {
+				field = fieldOf(fa.X.Type(), fa.Field)
+				p = fa.X
+			} else {
+				p = x.X
+			}
+		case *ssa.Field:
+			field = fieldOf(x.X.Type(), x.Field)
+			p = x.X
+		default:
+			p = v
+		}
+		// struct-typed parameters whose fields are addressed are copied into a local first
+		p = spilledParam(p)
+	}
+	for k, q := range fn.Params {
+		if p == ssa.Value(q) {
+			return k, field, true
+		}
+	}
+	return 0, nil, false
 }
 
 // elemIndexField: v is `s[idx].F` (load of a field of an indexed element): returns idx and F.
